@@ -12,9 +12,7 @@ usage: c15_extract_job.py <harness-binary> <workdir> <tier> <seed> <out.jsonl>  
 Oracle only (no model)."""
 import json
 import os
-import resource
 import shutil
-import signal
 import subprocess
 import sys
 
@@ -23,12 +21,25 @@ NAME_LEN = 2800
 LIMIT_KIB = 8 * 1024
 
 
+TIME = "/usr/bin/time"
+
+
 def run(mlar, args, cwd, fsize=None):
-    def pre():
-        if fsize is not None:
-            signal.signal(signal.SIGXFSZ, signal.SIG_IGN)
-            resource.setrlimit(resource.RLIMIT_FSIZE, (fsize, fsize))
-    p = subprocess.Popen([mlar] + args, cwd=cwd, stdout=subprocess.DEVNULL, stderr=subprocess.DEVNULL, preexec_fn=pre)
+    """(exit status, peak resident set in KiB) of one mlar run. Measured by GNU time (a tiny parent): the ru_maxrss that
+    wait4 gives a python parent also counts the image the child had BEFORE exec, i.e. python's own resident set."""
+    argv = [mlar] + args
+    if fsize is not None:
+        # sh's ulimit -f counts 512-byte blocks
+        argv = ["sh", "-c", "trap '' XFSZ; ulimit -f %d; exec \"$0\" \"$@\"" % (fsize // 512)] + argv
+    if os.path.exists(TIME):
+        mf = os.path.join(cwd, "maxrss.txt")
+        p = subprocess.run([TIME, "-f", "%M", "-o", mf] + argv, cwd=cwd, stdout=subprocess.DEVNULL, stderr=subprocess.DEVNULL)
+        try:
+            rss = int(open(mf).read().split()[-1])
+        except (OSError, ValueError, IndexError):
+            rss = 0
+        return p.returncode, rss
+    p = subprocess.Popen(argv, cwd=cwd, stdout=subprocess.DEVNULL, stderr=subprocess.DEVNULL)
     _, status, ru = os.wait4(p.pid, 0)
     return os.waitstatus_to_exitcode(status), ru.ru_maxrss
 
